@@ -18,7 +18,7 @@ assignments; `P` is a dict as `PUBO(P)` produces it (distinct keys, no zero coef
 `puboExtrema`, proved sound in `Qv.puboExtrema_sound`); `P` mentions no ancilla label `≥ ANC + st.anc`.
 -/
 namespace Qv.C02
-open Qv
+open Qv Qv.PcboP
 
 /-- **T2.1 (F ≥ 0 everywhere).**  For every relation, every `log_trick`, every valid enclosure, warned or not:
 the added terms are non-negative at every boolean assignment of variables and ancillas. -/
@@ -58,6 +58,37 @@ theorem T2_2_any_sup (rel : Rel) (st : St) (P : Poly) (lam : Rat) (lt : Bool) (b
     (sup : Bool) (h : Hyp st P lam b) (hw : ¬ WeakBranch rel P b) :
     Sem (RelP rel) st (addConstraint rel st P lam lt b sup) P lam :=
   addConstraint_sem h hw
+
+/-- **T2.1 + T2.2 packaged, independent of `suppress_warnings` and of earlier warnings** (the shape in which
+C03 consumes C02).  The "cannot be satisfied" flag is read off the same call made unsuppressed on the state with
+an empty warning list; the relation is the model's Boolean `Rel.holds`. -/
+theorem T2_packaged (r : Rel) (s0 : St) (P : Poly) (lam : Rat) (lt : Bool) (b : Option Rat × Option Rat) (sup : Bool)
+    (h : Hyp s0 P lam b) :
+    (∀ x, IsBool x → 0 ≤ FPen s0 (addConstraint r s0 P lam lt b sup) x) ∧
+    ("unsat" ∉ (addConstraint r { s0 with warns := [] } P lam lt b false).warns →
+      (∀ x, IsBool x → r.holds (eval x P) = true →
+        ∃ y, IsBool y ∧ (∀ i, ¬ InA s0 (addConstraint r s0 P lam lt b sup) i → y i = x i) ∧
+          FPen s0 (addConstraint r s0 P lam lt b sup) y = 0) ∧
+      (∀ x, IsBool x → r.holds (eval x P) = false →
+        ∀ y, IsBool y → (∀ i, ¬ InA s0 (addConstraint r s0 P lam lt b sup) i → y i = x i) →
+          lam ≤ FPen s0 (addConstraint r s0 P lam lt b sup) y)) := by
+  refine ⟨fun x hx => addConstraint_nonneg h hx, fun hU => ?_⟩
+  have hw : ¬ WeakBranch r P b := by
+    intro hw
+    apply hU
+    rw [addConstraint_warns { s0 with warns := [] } P lt b (ne_of_gt h.lam_pos) hw]
+    simp
+  have S := addConstraint_sem (lt := lt) (sup := sup) h hw
+  refine ⟨fun x hx hr => ?_, fun x _ hr y hy hyx => ?_⟩
+  · obtain ⟨y, h1, h2, h3⟩ := S.sat x hx ((holds_iff r _).1 hr)
+    exact ⟨y, h2, h1, h3⟩
+  · refine S.viol y hy ?_
+    have : eval y P = eval x P := eval_off_anc h.fresh (fun (i : Nat) hi => hyx i (by
+      rintro ⟨k, hk1, _, rfl⟩; omega))
+    rw [this]
+    intro hp
+    rw [(holds_iff r _).2 hp] at hr
+    cases hr
 
 /-- the give-up branches are exactly announced: there the (unsuppressed) call appends the warning -/
 theorem weak_branch_warns (rel : Rel) (st : St) (P : Poly) (lam : Rat) (lt : Bool) (b : Option Rat × Option Rat)
@@ -99,9 +130,9 @@ theorem T2_4_valid (rel : Rel) (st : St) (P : Poly) (lam : Rat) (lt : Bool) (b :
 /-- **T2.4 for histories.**  After any sequence of additions to a fresh model, `is_solution_valid(x)` is true
 exactly when every recorded constraint — i.e. every input, in order — holds at `x`. -/
 theorem T2_4_history (h : List Step) (x : Var → Rat) :
-    (runH {} h).cons = h.map (fun c => (c.rel, c.P)) ∧
-    (isValid (runH {} h) x = true ↔ ∀ c ∈ h, RelP c.rel (eval x c.P)) := by
-  have hc : (runH {} h).cons = h.map (fun c => (c.rel, c.P)) := by rw [run_cons]; rfl
+    (run {} h).cons = h.map (fun c => (c.rel, c.P)) ∧
+    (isValid (run {} h) x = true ↔ ∀ c ∈ h, RelP c.rel (eval x c.P)) := by
+  have hc : (run {} h).cons = h.map (fun c => (c.rel, c.P)) := by rw [run_cons]; rfl
   refine ⟨hc, ?_⟩
   rw [isValid_iff, hc]
   constructor
@@ -114,14 +145,14 @@ theorem T2_4_history (h : List Step) (x : Var → Rat) :
 ancilla that does not exist yet, the invariant "every label in the terms is below `ANC + anc`" is preserved,
 and the counter is monotone. -/
 theorem T2_5_ancInv (st : St) (h : List Step) (hi : AncInv st) (hok : HistOk st h) :
-    AncInv (runH st h) ∧ st.anc ≤ (runH st h).anc :=
+    AncInv (run st h) ∧ st.anc ≤ (run st h).anc :=
   ⟨run_ancInv hi hok, run_anc_le st h⟩
 
 /-- **T2.5 (histories, distinct ancillas).**  The ancilla sets of two different additions `c` (after `h1`) and
 `d` (after `h1, c, h2`) of one history are disjoint. -/
 theorem T2_5_disjoint (st : St) (h1 : List Step) (c : Step) (h2 : List Step) (d : Step) (i : Var) :
-    ¬ (InA (runH st h1) (step (runH st h1) c) i ∧
-       InA (runH (step (runH st h1) c) h2) (step (runH (step (runH st h1) c) h2) d) i) :=
+    ¬ (InA (run st h1) (step (run st h1) c) i ∧
+       InA (run (step (run st h1) c) h2) (step (run (step (run st h1) c) h2) d) i) :=
   fun ⟨hc, hd⟩ => ancillas_disjoint st h1 c h2 d i hc hd
 
 /-- **T2.5 (penalties add independently, satisfied side).**  Let every addition of a history satisfy the
@@ -131,15 +162,15 @@ history (everything else as in `x`) makes the sum of all added terms 0 — the m
 sum is the sum of the minima. -/
 theorem T2_5_independent_sat (st : St) (h : List Step) (hh : HistHyp st h) (x : Var → Rat) (hx : IsBool x)
     (hr : ∀ c ∈ h, RelP c.rel (eval x c.P)) :
-    ∃ s, (∀ i, ¬ InA st (runH st h) i → s i = x i) ∧ IsBool s ∧ FPen st (runH st h) s = 0 :=
+    ∃ s, (∀ i, ¬ InA st (run st h) i → s i = x i) ∧ IsBool s ∧ FPen st (run st h) s = 0 :=
   run_sat hh hx hr
 
 /-- **T2.5 (penalties add independently, violated side).**  Under the same hypotheses, the sum of all added
 terms is non-negative at every boolean assignment of variables and ancillas, and is at least `c.lam` as soon
 as some constraint `c` of the history is violated — whatever the ancillas of all constraints are set to. -/
 theorem T2_5_independent_viol (st : St) (h : List Step) (hh : HistHyp st h) (s : Var → Rat) (hs : IsBool s) :
-    0 ≤ FPen st (runH st h) s ∧
-    ∀ c ∈ h, ¬ RelP c.rel (eval s c.P) → c.lam ≤ FPen st (runH st h) s :=
+    0 ≤ FPen st (run st h) s ∧
+    ∀ c ∈ h, ¬ RelP c.rel (eval s c.P) → c.lam ≤ FPen st (run st h) s :=
   ⟨run_nonneg hh hs, fun c hc hr => run_viol hh hs c hc hr⟩
 
 /-- the hypotheses `nz`, `nd` of `Hyp` hold for every `PUBO(d)`, and integer coefficients give `int` -/
